@@ -7,7 +7,7 @@ class C05(MetaBase):
     id = "C05"
     model_targets = ["Pack.vo", "Corr/C05.vo"]
     proof_target = "Props/C05.vo"
-    theorems = ["C05_hash_input", "C05_refuted_nested_info", "C05_refuted_duplicate_info", "C05_refuted_truncated"]
+    theorems = ["C05_hash_input", "C05_refuted_nested_info", "C05_refuted_duplicate_info", "C05_refuted_truncated", "C05_search_spec", "C05_exact_span", "C05_documents_are_trees"]
     coq_header = "From Rdest Require Import Base BCodec DeepFinder Metainfo InfoSpec Corr.MetaCase Corr.C05.\nOpen Scope N_scope.\n"
     corr_name = "DeepFinder::find_first / Metainfo::info_hash vs DeepFinder.v"
     classes = {1: "nested-info-found-first", 2: "duplicate-info-key", 4: "truncated-tail"}
